@@ -11,6 +11,7 @@ package c14
 
 import (
 	"bytes"
+	"context"
 	"encoding/hex"
 	"fmt"
 	stdhash "hash"
@@ -20,6 +21,7 @@ import (
 	"strings"
 	"sync"
 	"testing"
+	"time"
 
 	"verif/harness/internal/ref"
 	"verif/harness/internal/rep"
@@ -317,7 +319,9 @@ func TestC14_ColdStart(t *testing.T) {
 		go func() {
 			defer wg.Done()
 			defer func() { <-sem }()
-			cmd := exec.Command(os.Args[0], "-test.run=^TestC14_ColdStart$", "-test.count=1")
+			ctx, cancel := context.WithTimeout(context.Background(), 5*time.Minute)
+			defer cancel()
+			cmd := exec.CommandContext(ctx, os.Args[0], "-test.run=^TestC14_ColdStart$", "-test.count=1")
 			cmd.Env = append(os.Environ(), "VERIF_COLD="+e.pkg+"|"+e.name, "VERIF_REPORT=", "VERIF_INST=")
 			var buf bytes.Buffer
 			cmd.Stdout, cmd.Stderr = &buf, &buf
@@ -328,6 +332,8 @@ func TestC14_ColdStart(t *testing.T) {
 			switch {
 			case strings.Contains(o, "COLD-MISMATCH"):
 				t.Errorf("%s %s: as the first use of the package in a process the result differs from the specification (lazy initialisation missing on this path):\n%s", e.pkg, e.name, lastLines(o, 5))
+			case ctx.Err() != nil:
+				t.Errorf("%s %s: cold-start child did not finish within 5 minutes (killed):\n%s", e.pkg, e.name, lastLines(o, 8))
 			case err != nil || !strings.Contains(o, "COLD-OK"):
 				t.Errorf("%s %s: cold-start child failed (%v):\n%s", e.pkg, e.name, err, lastLines(o, 8))
 			}
